@@ -1162,4 +1162,59 @@ theorem level_members {env : Env} {fuel : Nat} {root : Mod} {scope : List Stmt} 
     rw [hmem]
     exact addMembers_sub _ _ m hm
 
+/-! ## A finite derivation excludes cycles -/
+
+theorem binds_not_builtin {reg : Registry} {root : Mod} {scope : List Stmt} {name : String} {m : Mod} {td : Stmt}
+    {sc : List Stmt} (h : Binds reg root scope name m td sc) : builtinNames.contains name = false := by
+  cases h <;> assumption
+
+/-- In an unambiguous schema, below a resolvable type statement every chain of `Uses` steps ends. -/
+theorem resolvable_acc {reg : Registry} (hU : Unambiguous reg) :
+    ∀ {root : Mod} {scope : List Stmt} {t : Stmt}, Resolvable reg root scope t →
+      Acc (fun b a => Uses reg a b) (root, scope, t)
+  | root, scope, t, .builtin hb hm => by
+    constructor
+    intro y hy
+    cases hy with
+    | base m td sc tt hbind _ => rw [binds_not_builtin hbind] at hb; cases hb
+    | member ut hut => exact resolvable_acc hU (hm ut hut)
+  | root, scope, t, .derived m td sc tt hbind htt hbase hm => by
+    constructor
+    intro y hy
+    cases hy with
+    | base m' td' sc' tt' hbind' htt' =>
+      obtain ⟨h1, h2, h3⟩ := hU _ _ _ _ _ _ _ _ _ hbind hbind'
+      subst h1 h2 h3
+      rw [htt] at htt'
+      cases htt'
+      exact resolvable_acc hU hbase
+    | member ut hut => exact resolvable_acc hU (hm ut hut)
+
+theorem usesPlus_snoc {reg : Registry} {a b c : Site} (h : UsesPlus reg a b) (hbc : Uses reg b c) : UsesPlus reg a c := by
+  induction h with
+  | one hab => exact UsesPlus.cons hab (UsesPlus.one hbc)
+  | cons hab _ ih => exact UsesPlus.cons hab (ih hbc)
+
+theorem acc_usesPlus {reg : Registry} {a b : Site} (ha : Acc (fun b a => Uses reg a b) a) (h : UsesPlus reg a b) :
+    Acc (fun b a => Uses reg a b) b := by
+  induction h with
+  | one hab => exact ha.inv hab
+  | cons hab _ ih => exact ih (ha.inv hab)
+
+theorem acc_no_cycle {reg : Registry} {a : Site} (ha : Acc (fun b a => Uses reg a b) a) : ¬ UsesPlus reg a a := by
+  induction ha with
+  | intro x _ ih =>
+    intro hcyc
+    cases hcyc with
+    | one hxx => exact ih x hxx (UsesPlus.one hxx)
+    | cons hxy hyx => exact ih _ hxy (usesPlus_snoc hyx hxy)
+
+theorem resolvable_not_cyclic {reg : Registry} (hU : Unambiguous reg) {root : Mod} {scope : List Stmt} {t : Stmt}
+    (h : Resolvable reg root scope t) : ¬ Cyclic reg (root, scope, t) := by
+  rintro ⟨b, hb, hcyc⟩
+  have hacc := resolvable_acc hU h
+  rcases hb with rfl | hb
+  · exact acc_no_cycle hacc hcyc
+  · exact acc_no_cycle (acc_usesPlus hacc hb) hcyc
+
 end Goyang.Lemmas.Types
